@@ -475,3 +475,93 @@ def run(ctx, rep):
             rep.ok("C01.6", cons, "the property returns the stored field itself", getter.loc())
         else:
             rep.violation("C01.6", cons, f"{kname}.{m} no longer returns the stored field: a let-constant stored there is resolved to its value before the printer sees it, so `register q[n]` is printed as `register q[3]`", getter.loc())
+
+
+    # ------------------------------------------------------------ C01.4
+    run_templates(ctx, rep, lx, automata)
+
+
+SHAPE_ASSUMPTIONS = [
+    "A1: a subcircuit block is sequential (Builder.build_subcircuit_block never sets parallel)",
+    "A2: the body of a loop or of a macro is a plain (non-subcircuit) sequential or parallel block (grammar: gate_block)",
+    "A3: inside a parallel block the member blocks are sequential; inside a sequential block they are parallel or subcircuit blocks",
+    "A4: the members of a parallel block are gates and sequential blocks, never loops",
+]
+
+
+def run_templates(ctx, rep, lx, automata):
+    """C01.4: the keyword/bracket/separator templates of the generator are derivable from the parser's grammar."""
+    from ..templates import TemplateExtractor, LiteralTokenizer, to_grammar, Earley, Unmodelled
+    from ..lexer import extract_parser
+    from ..grammar import Grammar
+    from .c02 import never_returning_methods, _never_returns
+
+    ix, T = ctx.ix, ctx.typer
+    n = 10 if ctx.tier == "quick" else 12
+    rep.rule("C01.4", f"every token string the generator's templates can emit (IR shape model A1-A4, length <= {n}) is derivable from the parser's grammar", floor=1)
+    for a in SHAPE_ASSUMPTIONS:
+        rep.assume("generator templates, IR shape model " + a)
+    printers = find_value_printer(ctx)
+    te = TemplateExtractor(ix, GEN, printers[0][0].qualname)
+    for name, f in te.funcs.items():
+        env = T.final_env.get(f.qualname, {})
+        ts = env.get(f.params[0], frozenset()) if f.params else frozenset()
+        if BLOCK in ts and any(isinstance(m, ast.Attribute) and m.attr == "subcircuit" for m in ast.walk(f.node)):
+            te.kinds[name] = "block"
+            te.block_printer = name
+        elif LOOP in ts:
+            te.kinds[name] = "loop"
+        elif MACRO in ts:
+            te.kinds[name] = "macro"
+    entry = "generate_jaqal_program"
+    if entry not in te.funcs:
+        raise AnalysisError("C01.4: generate_jaqal_program vanished")
+    cons = "generator.generator:templates"
+    try:
+        templates = te.extract_all(entry)
+        if te.unmodelled:
+            for name, why in sorted(te.unmodelled.items()):
+                rep.undecided("C01.4", f"generator.generator:{name}:template", f"string building not modelled: {why}")
+            return
+        tok = LiteralTokenizer(lx, automata)
+        holes = {
+            "IDENT": [["IDENTIFIER"]],
+            "MODULE": [["IDENTIFIER"], ["DOTIDENTIFIER"]],
+            "NUM": [["NUMBER"], ["INT"]],
+            "INTLIKE": [["INT"], ["IDENTIFIER"]],
+            "VALUE": [["IDENTIFIER"], ["IDENTIFIER", '"["', "INT", '"]"'], ["IDENTIFIER", '"["', "IDENTIFIER", '"]"'], ["NUMBER"], ["INT"]],
+        }
+        G0 = to_grammar(templates, tok, holes, entry)
+        for a_, b_ in getattr(G0, "glued", [])[:3]:
+            rep.violation("C01.4", "generator.generator:templates:glued", f"the template piece {a_!r} is followed directly by {b_!r} without a separating blank: the two lex as one token", "")
+        G = G0.trim()
+    except Unmodelled as ex:
+        rep.undecided("C01.4", cons, f"string building not modelled: {ex}")
+        return
+    pm = extract_parser(ix)
+    noret = never_returning_methods(ix, pm.cls)
+    prods = {}
+    for p in pm.productions:
+        if _never_returns(p.func, noret):
+            continue
+        prods.setdefault(p.lhs, []).append(tuple(p.rhs))
+    for p in pm.productions:
+        prods.setdefault(p.lhs, [])
+    P = Grammar(prods, pm.start).trim()
+    E = Earley(P)
+    words, alpha = G.enumerate(n)
+    rep.analysed["template_functions"] = sorted(templates)
+    rep.analysed["template_strings_checked"] = len(words)
+    bad = []
+    for w in words:
+        ws = [alpha[b] for b in w]
+        if not E.accepts(ws):
+            bad.append(ws)
+    if not words:
+        raise AnalysisError("C01.4: the template grammar derives no string")
+    if bad:
+        bad.sort(key=len)
+        wtxt = " ".join(x.strip('"') if x.startswith('"') else x for x in bad[0])
+        rep.violation("C01.4", cons, f"the generator can emit the token sequence `{wtxt}`, which the parser's grammar does not derive ({len(bad)} of {len(words)} template strings of length <= {n}): generated text is rejected by the parser", "", witness=wtxt)
+    else:
+        rep.ok("C01.4", cons, f"all {len(words)} template token strings of length <= {n} are derivable from the parser's grammar")
